@@ -25,6 +25,25 @@ def other_data(entry, rng):
     return entry.data(rng)
 
 
+def represent(X, y, rng):
+    """the same training values held differently by the caller: Fortran order / a strided view into a wider buffer
+    (float64 throughout: same values, same dtype).  None when the container is not a float matrix."""
+    if not isinstance(X, numpy.ndarray) or X.ndim != 2 or X.dtype != numpy.float64:
+        return None
+    if rng.random() < 0.5:
+        X2 = numpy.asfortranarray(X.copy())
+    else:
+        wide = numpy.full((X.shape[0], 2 * X.shape[1]), 12345.0)
+        wide[:, ::2] = X
+        X2 = wide[:, ::2]
+    y2 = y
+    if isinstance(y, numpy.ndarray) and y.ndim == 1:
+        buf = numpy.zeros((2 * y.shape[0],), dtype=y.dtype)
+        buf[::2] = y
+        y2 = buf[::2]
+    return X2, y2
+
+
 def plain_sets(entry):
     return [(k, j) for k, alts in entry.sets for j in range(len(alts))
             if not hasattr(alts[0](), "get_params")
@@ -63,6 +82,14 @@ def scenario(hist, entry, rng, variant=0, which=None):
     for obj, note in ((a, "refitted instance"), (c, "fresh clone")):
         lifecycle.observe_all(hist, obj, entry, XB, "RefitEqFresh", note=note)
         lifecycle.observe_attrs(hist, obj, "RefitEqFresh", note=note)
+    # the training set is its values, not how the caller holds them: a second clone trained on the same B kept in
+    # Fortran order / as a strided view is the same model
+    rep = represent(XB, yB, rng)
+    if rep is not None:
+        e = hist.clone(a, base)
+        if e is not None:
+            lifecycle.do_fit(hist, e, rep[0], rep[1], entry, seedB if entry.seed != "rs" else seedB + 17, "B")
+            lifecycle.observe_all(hist, e, entry, XB, "RefitEqFresh", note="fresh clone, other memory layout")
     # same data, parameters and seed again on the same instance: exactly the same model
     lifecycle.do_fit(hist, a, XB, yB, entry, seedB, "B")
     lifecycle.observe_all(hist, a, entry, XB, "SeedDeterminism", note="third fit, same seed")
